@@ -445,6 +445,48 @@ def r7_trajectories_from_the_current_state(ctx):
     ctx.ok("C12.R7", ("leaspy.models", "<package>"), None, f"{n_region} functions reachable from the read-only API: no attribute of the model is written", construct="read-only API")
 
 
+def r8_feature_names_stored_as_given(ctx):
+    """'the reloaded model is the saved one': `BaseModel.load` hands the saved feature names to the constructor, which stores them as they
+    are - the names a fit takes from the data are never cleaned either, so any rewriting here (str(), strip(), lower() ...) gives the
+    reloaded model other names than the saved one for labels that are not already in the cleaned form."""
+    ctx.rule("C12.R8", "the feature names handed to the constructor are stored unchanged (validation helper, __init__, features setter)", 3)
+    v = ctx.ix.func(BASE, "BaseModel._validate_user_provided_dimension_and_features_at_init", "C12.R8")
+    pops = [st for st in statements(v.node) if isinstance(st, ast.Assign) and len(st.targets) == 1 and isinstance(st.targets[0], ast.Name)
+            and isinstance(st.value, ast.Call) and isinstance(st.value.func, ast.Attribute) and st.value.func.attr in ("pop", "get") and st.value.args and U(st.value.args[0]) == "'features'"]
+    rets = [st for st in statements(v.node) if isinstance(st, ast.Return)]
+    if len(pops) != 1 or len(rets) != 1 or not (isinstance(rets[0].value, ast.Tuple) and len(rets[0].value.elts) == 2):
+        ctx.unknown("C12.R8", v, v.node, "the validation helper no longer has the shape `features = kwargs.pop('features', None) ... return dimension, features`", construct="features through the validation helper")
+    else:
+        name = pops[0].targets[0].id
+        others = [st for st in statements(v.node) if st is not pops[0] and any(isinstance(t, ast.Name) and t.id == name for t in store_targets(st))]
+        if others:
+            ctx.violation("C12.R8", v, others[0], f"`{U(others[0])[:90]}` rewrites the feature names handed to the constructor before they are stored: a model reloaded from its file carries "
+                          "other names than the saved one (a fit takes the names from the data unchanged)", construct="features through the validation helper")
+        else:
+            ctx.check(U(rets[0].value.elts[1]) == name, "C12.R8", v, rets[0], "the names popped from the keyword arguments are returned as they are",
+                      f"the helper returns `{U(rets[0].value.elts[1])[:60]}` instead of the feature names it was given", construct="features through the validation helper")
+    i = ctx.ix.func(BASE, "BaseModel.__init__", "C12.R8")
+    from ..astq import Canon
+    L = Canon(i.node).lines(False, True)
+    import re as _re
+    ok = any(_re.fullmatch(r"(%\d+), (%\d+) = \$0\._validate_user_provided_dimension_and_features_at_init\(\*\*\$kwargs\)", ln) for ln in L)
+    m = next((_re.fullmatch(r"(%\d+), (%\d+) = \$0\._validate_user_provided_dimension_and_features_at_init\(\*\*\$kwargs\)", ln) for ln in L if "_validate_user_provided" in ln), None)
+    stored = m is not None and any(_re.fullmatch(r"\$0\._features(: [^=]+)? = " + _re.escape(m.group(2)), ln) for ln in L)
+    text = "; ".join(ln for ln in L if "_features" in ln or "_validate_user_provided" in ln)
+    ctx.form("C12.R8", i, i.node, text, {text} if ok and stored else set(), ["$0._features", "_validate_user_provided_dimension_and_features_at_init("], "__init__ stores the validated names as returned",
+             "__init__ no longer stores the feature names returned by the validation helper", forbidden=[r"_features[^=]*= .*(str\(|\.strip\(|\.lower\(|\.upper\(|sorted\()"], construct="features stored by __init__")
+    cls_ = ctx.ix.classes.get((BASE, "BaseModel"))
+    setter = next((b for b in (cls_.body if cls_ is not None else []) if isinstance(b, ast.FunctionDef) and b.name == "features" and len(b.args.args) == 2
+                   and any(U(d) == "features.setter" for d in b.decorator_list)), None)
+    if setter is None:
+        ctx.unknown("C12.R8", (BASE, "BaseModel.features"), None, "features setter not found", construct="features setter")
+    else:
+        Ls = Canon(setter).lines(False, True)
+        stores = [ln for ln in Ls if ln.startswith("$0._features = ")]
+        ctx.check(sorted(stores) == ["$0._features = $1", "$0._features = None"], "C12.R8", (BASE, "BaseModel.features"), setter, "the setter stores the list it is given (or None)",
+                  f"the features setter stores {stores}: not the names it was given", construct="features setter")
+
+
 def rules(ctx):
     r7_trajectories_from_the_current_state(ctx)
     r6_files_read_afresh(ctx)
@@ -456,6 +498,7 @@ def rules(ctx):
     r4c_tensor_to_list(ctx)
     r4_codec(ctx)
     r5_rank(ctx)
+    r8_feature_names_stored_as_given(ctx)
     ctx.trust("json round trip of Python lists / numbers; tensor.tolist(); tensor.view")
     ctx.note("the two `assert (cond, msg)` statements at the end of StatefulModel.load_parameters assert a non-empty tuple (always true): the comparison of provided derived values is dead code (not part of the statement)")
 
